@@ -13,13 +13,13 @@ struct Send { int dst = 0, flags = 0, src_own = 0; };
 struct Sender { int in_pool = 0, pool_idx = 0; std::vector<Send> sends; };
 struct Fault { int fn = 0, k = 0, err = 0; };
 struct MsgCase {
-  int nthreads = 1, skip_first = 0, stall_dst = 255, burst = 0, burst_flags = 0;
+  int nthreads = 1, skip_first = 0, stall_dst = 255, burst = 0, burst_flags = 0, late_burst = 0, late_dst = 0;
   std::vector<Sender> senders;
   Bytes plan;
   std::vector<Fault> faults;
   std::string ser() const {
     Writer w;
-    w.i("nthreads", nthreads).i("skip_first", skip_first).i("stall_dst", stall_dst).i("burst", burst).i("burst_flags", burst_flags);
+    w.i("nthreads", nthreads).i("skip_first", skip_first).i("stall_dst", stall_dst).i("burst", burst).i("burst_flags", burst_flags).i("late_burst", late_burst).i("late_dst", late_dst);
     w.i("nsenders", (long long)senders.size());
     for (size_t i = 0; i < senders.size(); i++) {
       std::vector<long long> v{senders[i].in_pool, senders[i].pool_idx};
@@ -36,7 +36,7 @@ struct MsgCase {
     Reader r(t);
     MsgCase c;
     c.nthreads = (int)r.i("nthreads", 1); c.skip_first = (int)r.i("skip_first"); c.stall_dst = (int)r.i("stall_dst", 255);
-    c.burst = (int)r.i("burst"); c.burst_flags = (int)r.i("burst_flags");
+    c.burst = (int)r.i("burst"); c.burst_flags = (int)r.i("burst_flags"); c.late_burst = (int)r.i("late_burst"); c.late_dst = (int)r.i("late_dst");
     int n = (int)r.i("nsenders");
     for (int i = 0; i < n; i++) {
       auto v = r.iv(("s" + std::to_string(i)).c_str());
@@ -88,10 +88,15 @@ static Verdict evaluate(const MsgCase &c, const c05_out &o, bool &hang) {
       x.used = true; x.sender = (int)s; x.seq = (int)j;
       x.dst = c.senders[s].sends[j].dst; x.flags = c.senders[s].sends[j].flags & 7;
     }
-  for (uint32_t b = (uint32_t)c.senders.size() * C05_MAX_SENDS; b < o.nsends; b++) {
+  for (uint32_t b = (uint32_t)c.senders.size() * C05_MAX_SENDS; b < o.nsends - o.nlate; b++) {
     SendInfo &x = si[b];
     x.used = true; x.sender = (int)c.senders.size(); x.seq = (int)(b - c.senders.size() * C05_MAX_SENDS);
     x.dst = c.stall_dst; x.flags = c.burst_flags & 7;
+  }
+  for (uint32_t b = o.nsends - o.nlate; b < o.nsends; b++) {  // late burst: plain sends to a stalled, still running thread after tp_shutdown()
+    SendInfo &x = si[b];
+    x.used = true; x.sender = (int)c.senders.size() + 1; x.seq = (int)(b - (o.nsends - o.nlate));
+    x.dst = c.late_dst % c.nthreads; x.flags = 0;
   }
   std::set<uint64_t> pool_ptrs;
   for (int i = 0; i < c.nthreads; i++) pool_ptrs.insert(o.tpt_ptr[i]);
@@ -178,8 +183,9 @@ static Verdict evaluate(const MsgCase &c, const c05_out &o, bool &hang) {
   if (direct_taken) label("direct_call_path");
   if (pvt_sends && c.nthreads >= 2) label("virtual_thread_destination");
   if (c.stall_dst != 255 && c.burst > 2048) label("queue_full_burst");
+  if (o.nlate) label(o.nlate > 1024 ? "late_burst_after_shutdown_gt_1024" : "late_burst_after_shutdown");
   for (int p : {1, 2, 3}) if (o.res.vp_hits[p]) label("vp" + std::to_string(p) + "_hit");
-  if (overlap || inj || failed || direct_taken || (pvt_sends && c.nthreads >= 2)) nontrivial_cur();
+  if (overlap || inj || failed || direct_taken || (pvt_sends && c.nthreads >= 2) || o.nlate) nontrivial_cur();
   return Verdict::pass();
 }
 
@@ -191,6 +197,7 @@ static Verdict run_case(const MsgCase &c) {
   scn->stall_dst = (uint8_t)c.stall_dst;
   scn->burst = (uint16_t)std::min(4000, c.burst);
   scn->burst_flags = (uint8_t)c.burst_flags;
+  scn->late_burst = (uint16_t)std::min(1990, std::max(0, c.late_burst)); scn->late_dst = (uint8_t)c.late_dst;
   scn->nsenders = (uint8_t)std::min<size_t>(c.senders.size(), C05_MAX_SENDERS);
   for (int i = 0; i < scn->nsenders; i++) {
     scn->senders[i].in_pool = (uint8_t)c.senders[i].in_pool;
@@ -249,6 +256,11 @@ static rc::Gen<MsgCase> genCase() {
       if (c.stall_dst >= c.nthreads) c.stall_dst = 255;
       c.burst = *range<int>(2040, 2120);
       c.burst_flags = *rc::gen::element(0, 4, 4, 6);
+    }
+    if (*range<int>(0, 7) == 0) {
+      // sends accepted between tp_shutdown() and the moment the destination sees its stop message (it is held in a callback)
+      c.late_dst = *range<int>(c.skip_first ? 1 : 0, std::max(c.skip_first ? 1 : 0, c.nthreads - 1));
+      if (c.late_dst < c.nthreads && !(c.skip_first && c.late_dst == 0)) c.late_burst = *rc::gen::element(3, 200, 1000, 1100, 1500, 1900);
     }
     c.plan = *bytes_upto(24);
     int nf = *rc::gen::weightedElement<int>({{3, 0}, {3, 1}, {2, 2}, {1, 4}});
